@@ -56,7 +56,7 @@ from edgegraph.traversal import helpers, breadthfirst, depthfirst
 from edgegraph.builder import explicit, adjlist, adjmatrix, randgraph
 from edgegraph.output import nrpickler
 
-EXPECTED_DIGEST = "98b907c47233b8a5c7152ff444e0422762e90a03165f5767b65b2806fa8fd84b"
+EXPECTED_DIGEST = "7c95593347de09f968fe43f93b597fc4a9c1b7504978f02940fd9fc644eaef74"
 
 FWD = helpers.DIR_SENS_FORWARD
 ANY = helpers.DIR_SENS_ANY
